@@ -234,7 +234,11 @@ class Network(Module):
             )
 
         # Convert comp_edges to the index format required for `jax.sparse` solvers.
-        n_nodes, data_inds, indices, indptr = comp_edges_to_indices(self._comp_edges)
+        # Cells without any edge (i.e. with a single compartment) do not show up in
+        # `_comp_edges`, so the number of nodes has to be passed explicitly.
+        n_nodes, data_inds, indices, indptr = comp_edges_to_indices(
+            self._comp_edges, n_nodes=int(self.cumsum_ncomp[-1]) + len(self._par_inds)
+        )
         self._n_nodes = n_nodes
         self._data_inds = data_inds
         self._indices_jax_spsolve = indices
